@@ -472,7 +472,8 @@ class XPathContext:
 
         :param axis: the context axis, default is 'following-sibling'.
         """
-        if isinstance(self.item, XPathNode):
+        if isinstance(self.item, XPathNode) and \
+                not isinstance(self.item, (AttributeNode, NamespaceNode)):
             if self.document is not None or self.item is not self.root:
                 item = self.item
 
@@ -563,6 +564,9 @@ class XPathContext:
                             break
                         root = root.parent
                         ancestors.add(root)
+
+                    if isinstance(item, (AttributeNode, NamespaceNode)):
+                        item = item.parent  # stop at the parent element, that is an ancestor
 
                     for self.item in root.iter_descendants():
                         if self.item is item:
